@@ -1667,6 +1667,12 @@ def scalar_binop(k, a, b):
         a = int(a)
     if isinstance(b, np.integer):
         b = int(b)
+    # a symbolic truth value used as a number (mask arithmetic: x * (y >= c)): True is 1, False is 0
+    if k in ("Add", "Sub", "Mult", "Div", "Pow"):
+        if isinstance(a, T) and a.is_bool:
+            a = tm.mk_ite(a, tm.ONE, tm.ZERO)
+        if isinstance(b, T) and b.is_bool:
+            b = tm.mk_ite(b, tm.ONE, tm.ZERO)
     sym = isinstance(a, T) or isinstance(b, T)
     if k == "Add":
         return a + b
